@@ -73,10 +73,12 @@ EXPLANATION = (
     "bases, type variables as direct arguments of the bases); how the "
     "tables are filled and what callers do with the result; a function "
     "rewritten outside the evaluated fragment is an analysis error, not a "
-    "verdict.  Bases parameterised by NESTED generics "
-    "(`class M(Box[List[V]], Other[K])`) are left out of R6.21 on purpose: "
-    "the two sides disagree there today (rules/pending_C06_template_nested.py, "
-    "not loaded, holds the rule and the confirmed failing input).")
+    "verdict; helpers are followed into the module that defines them (a "
+    "private helper of mro.py called by bare name from MergeSequences is "
+    "evaluated from mro.py).  Bases parameterised by NESTED generics "
+    "(`class M(Box[List[V]], Other[K])`) are compared by R6.22 "
+    "(rules/c06_template_nested.py; the two sides disagreed there before the "
+    "D55 repair).")
 ASSUMPTIONS = [
     "convert.py dispatches pytd nodes only through constant_to_var, "
     "_constant_to_value and _pytd_constant_to_value; structural nodes "
@@ -544,9 +546,88 @@ def _fill_visit(call):
   return None
 
 
-def _relink_flow(fn, extra_gen=None):
+def _methods_mro(mod, cls):
+  """name -> def over `cls` and its bases defined in the same module (derived class first)."""
+  out, todo, seen = {}, [cls], set()
+  while todo:
+    c = todo.pop(0)
+    if c in seen or c not in mod.classes:
+      continue
+    seen.add(c)
+    for k, v in mod.methods(c).items():
+      out.setdefault(k, v)
+    todo += [dotted(b) for b in mod.classes[c].bases if dotted(b)]
+  return out
+
+
+def _callee_summary(mod, cls, call, depth):
+  """What a call `self.<method>(<args>)` of a method of the same class establishes in the caller.
+
+  -> (facts that hold at every non-raising exit of the method, names it may store), both with the method's
+  parameters replaced by the (dotted) arguments of the call; None if the call is not such a call.
+  """
+  d = dotted(call.func) or ""
+  if mod is None or cls is None or depth > 2 or not d.startswith("self.") or d.count(".") != 1 \
+      or d in _RELINK_CALLS:
+    return None
+  callee = _methods_mro(mod, cls).get(d.split(".")[1])
+  if callee is None or callee.args.vararg or callee.args.kwarg or callee.decorator_list:
+    return None
+  params = [a.arg for a in callee.args.posonlyargs + callee.args.args][1:]
+  if len(call.args) > len(params) or any(isinstance(a, ast.Starred) for a in call.args) \
+      or any(k.arg is None for k in call.keywords):
+    return None
+  bound = {**dict(zip(params, call.args)), **{k.arg: k.value for k in call.keywords}}
+  ren = {p_: dotted(a) for p_, a in bound.items()}
+  rebound = {n.id for n in walk_no_nested(callee) if isinstance(n, ast.Name) and not isinstance(n.ctx, ast.Load)}
+
+  def tr(name):
+    head, _, rest = name.partition(".")
+    if head == "self":
+      return name
+    if head in ren and ren[head] and head not in rebound:
+      return ren[head] + ("." + rest if rest else "")
+    return None   # a local of the method / a non-dotted argument / a rebound parameter
+  f = _relink_flow(callee, None, mod, cls, depth + 1)
+  states = [st for k, _, st in f.exits if k != "raise" and st is not None]
+  facts = set()
+  if states:
+    for x in frozenset.intersection(*map(frozenset, states)):
+      if ":" in x and x.split(":", 1)[0] in ("filled", "relinked"):
+        t = tr(x.split(":", 1)[1])
+        if t:
+          facts.add(x.split(":", 1)[0] + ":" + t)
+      else:
+        facts.add(x)
+  stored = set()
+  for n in walk_no_nested(callee):
+    if isinstance(n, (ast.Assign, ast.AugAssign, ast.AnnAssign)):
+      for t in (n.targets if isinstance(n, ast.Assign) else [n.target]):
+        for sub in ([t] if not isinstance(t, ast.Tuple) else t.elts):
+          if dotted(sub):
+            stored.add(dotted(sub))
+  # what the method's own callees store, one more level
+  for c in calls_in(callee):
+    sub = _callee_summary(mod, cls, c, depth + 1)
+    if sub:
+      stored |= {x for x in sub[1]}
+  return facts, {t for t in map(tr, stored) if t}
+
+
+def _relink_flow(fn, extra_gen=None, mod=None, cls=None, depth=0):
   """must-flow: 'filled:<expr>' after X.Visit(FillInLocalPointers), 'relinked:<v>'
-  after v = ProcessAst(..)/FillLocalReferences(..), 'relink' after any re-link."""
+  after v = ProcessAst(..)/FillLocalReferences(..), 'relink' after any re-link.
+
+  With mod/cls: a call `self.<method>(..)` of a method of the same class (local
+  MRO) contributes what holds at every non-raising exit of that method, and
+  kills the facts of what the method may store, parameters mapped to arguments."""
+  summaries = {}
+
+  def summary(c):
+    if id(c) not in summaries:
+      summaries[id(c)] = _callee_summary(mod, cls, c, depth)
+    return summaries[id(c)]
+
   def gen(unit):
     out = []
     for c in flow.unconditional_calls(unit):
@@ -557,6 +638,9 @@ def _relink_flow(fn, extra_gen=None):
       if d in _RELINK_CALLS:
         out.append("relink")
         out.append("call:" + d.split(".")[-1])
+      sm = summary(c)
+      if sm:
+        out += sorted(sm[0])
     if isinstance(unit, ast.Assign) and isinstance(unit.value, ast.Call) and \
         (dotted(unit.value.func) or "") in _RELINK_CALLS and len(unit.targets) == 1:
       t = dotted(unit.targets[0])
@@ -566,14 +650,20 @@ def _relink_flow(fn, extra_gen=None):
       out += extra_gen(unit) or []
     return out
   def kill(unit):
+    names = set()
+    if mod is not None and not isinstance(unit, (ast.FunctionDef, ast.AsyncFunctionDef, ast.ClassDef)):
+      for c in calls_in(unit):
+        sm = summary(c)
+        if sm:
+          names |= sm[1]
     if isinstance(unit, (ast.Assign, ast.AugAssign, ast.AnnAssign)):
       tg = unit.targets if isinstance(unit, ast.Assign) else [unit.target]
-      names = set()
       for t in tg:
         for sub in ([t] if not isinstance(t, ast.Tuple) else t.elts):
           d = dotted(sub)
           if d:
             names.add(d)
+    if names:
       return lambda f: (f.startswith("filled:") or f.startswith("relinked:")) \
           and f.split(":", 1)[1] in names
     return None
@@ -634,7 +724,7 @@ def r6_3(ctx):
   lmod = get_module(ctx, LOAD)
   # Loader.process_module
   pm = lmod.func("Loader.process_module")
-  f = _relink_flow(pm)
+  f = _relink_flow(pm, None, lmod, "Loader")
   stores = [n for n in walk_no_nested(pm) if isinstance(n, ast.Assign)
             and isinstance(n.targets[0], ast.Subscript)
             and dotted(n.targets[0].value) == "self._modules"]
